@@ -36,7 +36,8 @@ def plan(tier):
 def floors(tier):
     f = {"nontrivial": 50, "held:main": 60, "held:catalogue": 20, "counter:cost_checks": 250, "counter:residual_checks": 100,
          "counter:costIV_checks": 60, "counter:zero_cost_clause": 4, "class:obs-permuted": 15, "class:obs-string": 10,
-         "class:target_param": 20, "class:weights": 6, "class:spread-matrix": 8, "class:single-state": 3}
+         "class:target_param": 20, "class:weights": 6, "class:x0-ndarray-shared": 40, "counter:aliasing_checks": 60, "counter:sibling_checks": 40,
+         "counter:input_mutation_checks": 100, "class:spread-matrix": 8, "class:single-state": 3}
     for k in RL.KINDS:
         f["class:" + k] = 8
     return f
@@ -73,7 +74,14 @@ def run_case(rng, idx, tier, lane, ctx):
         d.update(kw)
         wit.append(d)
 
+    # caller-owned data: half of the cases hand ONE float ndarray of initial values to two loss objects (sibling first)
+    c.x0_as_array = rng.random() < 0.5
+    c.x0_array = np.array(c.x0, dtype=float)
+    if c.x0_as_array:
+        cls.append("x0-ndarray-shared")
+    y_before, t_before = c.y.copy(), np.array(c.times, dtype=float).copy()
     try:
+        sibling = LC.make_loss(c) if c.x0_as_array else None
         obj = LC.make_loss(c)
     except Exception as e:
         return {"status": "violated", "sample": sample, "counters": counters, "classes": cls,
@@ -139,12 +147,45 @@ def run_case(rng, idx, tier, lane, ctx):
                 counters["costIV_checks"] += 1
                 if not abs(float(got) - exp) <= tol:
                     bad("costIV differs from the loss of the solution started at the supplied initial values", got=float(got), expected=exp, tolerance=tol)
+                # ---- the loss object must not share memory with the caller's data: the caller scribbles over the vector it passed to
+                # costIV; cost(theta) must still be the loss for initial values that were actually supplied (the ones given to costIV, or
+                # the constructor's), never something derived from the scribble
+                arg[:] = arg * 3.0 + 1.0
+                free0 = np.array(LC.free_theta(c, c.theta), dtype=float)
+                with contextlib.redirect_stdout(io.StringIO()), np.errstate(all="ignore"):
+                    again = float(obj.cost(free0))
+                counters["aliasing_checks"] = counters.get("aliasing_checks", 0) + 1
+                exp0 = LC.ref_cost(c, rs.x[:, c.obs_idx])
+                ok_b = abs(again - exp) <= tol
+                ok_0 = abs(again - exp0) <= 1e-6 * (1 + abs(exp0)) + float(np.sum(np.abs(RL.dcost(c.kind, c.y, rs.x[:, c.obs_idx], c.spread, c.weights)))) * tol_x
+                if not (ok_b or ok_0):
+                    bad("after the caller overwrote the vector it had passed to costIV, cost(theta) is the loss for neither the supplied nor the "
+                        "original initial values (the loss object aliases caller memory)", got=again, expected_for_supplied_x0=exp, expected_for_original_x0=exp0)
             except Exception as e:
                 if type(e).__name__ == "InputError" and "same length as the number of parameters" in str(e):
                     # explicit refusal of an ambiguous length (len(target_param) + nS == nP): an honest refusal, not a wrong value
                     counters["costIV_refused_ambiguous_length"] = counters.get("costIV_refused_ambiguous_length", 0) + 1
                 else:
                     bad("costIV raised", error=short_exc(e), tb=tb_tail(e))
+    # ---- caller-owned inputs are never modified, and a sibling object built from the same x0 array still sees the original values
+    counters["input_mutation_checks"] = counters.get("input_mutation_checks", 0) + 1
+    if not np.array_equal(c.x0_array, np.array(c.x0, dtype=float)):
+        bad("the caller's initial-value array was modified in place by the loss object", now=c.x0_array.tolist(), original=list(c.x0))
+    if not (np.array_equal(c.y, y_before) and np.array_equal(np.array(c.times, dtype=float), t_before)):
+        bad("the caller's observation / time arrays were modified in place by the loss object")
+    if sibling is not None:
+        yhat0 = rs.x[:, c.obs_idx]
+        if not (c.kind in ("Poisson", "Gamma", "NegBinom") and np.min(yhat0) <= 1e-6):
+            exp0 = LC.ref_cost(c, yhat0)
+            tol0 = 1e-6 * (1 + abs(exp0)) + float(np.sum(np.abs(RL.dcost(c.kind, c.y, yhat0, c.spread, c.weights)))) * tol_x
+            try:
+                with contextlib.redirect_stdout(io.StringIO()), np.errstate(all="ignore"):
+                    sv = float(sibling.cost(np.array(LC.free_theta(c, c.theta), dtype=float)))
+                counters["sibling_checks"] = counters.get("sibling_checks", 0) + 1
+                if not abs(sv - exp0) <= tol0:
+                    bad("a second loss object built from the same data changed its cost after calls on the first one", got=sv, expected=exp0)
+            except Exception as e:
+                bad("cost of the sibling loss object raised", error=short_exc(e), tb=tb_tail(e))
     from verifkit.ref import integrate as RI
     distinct_cols = p == 1 or all(np.max(np.abs(c.y[:, i] - c.y[:, j])) > 1e-9 for i in range(p) for j in range(i))
     nontriv = bool(n >= 4 and distinct_cols and RI.moves(c.x0, rs.x, tol_x))
